@@ -123,6 +123,24 @@ fn programs(env: &mc::refcond::Env, thorough: bool) -> Vec<Prog> {
             ]),
         )],
     );
+    // the same mix without the pair opcode (which SpendBundle::additions refuses, a recorded finding that
+    // would otherwise hide what it does with the zero-padded 51 opcodes)
+    add(
+        "many-outputs-no-pair-opcode".into(),
+        vec![GSpend::identity(
+            P1,
+            100,
+            Sx::list(&[
+                drive::cond(51, &[Sx::atom(&PH2), Sx::int(1), Sx::list(&[Sx::atom(&H1)])]),
+                Sx::list(&[Sx::atom(&[2]), Sx::atom(b"x")]),
+                drive::cond(51, &[Sx::atom(&PH2), Sx::int(2)]),
+                Sx::list(&[Sx::atom(&[0, 0, 51]), Sx::atom(&H1), Sx::int(11), Sx::list(&[Sx::atom(&H2)])]),
+                drive::cond(51, &[Sx::atom(&H1), Sx::int(2), Sx::list(&[Sx::atom(&[])])]),
+                Sx::list(&[Sx::atom(&[0, 51]), Sx::atom(&PH2), Sx::int(9)]),
+                drive::cond(51, &[Sx::atom(&H2), Sx::int(3), Sx::list(&[Sx::atom(&[0x31; 32]), Sx::atom(b"more")]), Sx::atom(b"extra")]),
+            ]),
+        )],
+    );
     // sibling coins: same parent and amount, different puzzles (lookup must not stop at the first
     // parent/amount match); and same puzzle, different amounts
     add(
